@@ -474,6 +474,29 @@ def atoms_text():
             raise R.Unsupported(f"{fn}: no integer to float conversion found")
         out.append(f"/-- `{fn}` of pybigtools: the value of `x` after each `as f32` / `as f64` in the function, in source order -/\n"
                    f"def pyb_conv_{fn} (x : Nat) : List Nat :=\n  [" + ", ".join(f"FR.{k} x" for k in kinds) + "]")
+    # --- bare `write` calls on a destination in the library's writer modules (count ignored => a short write loses bytes) ------
+    for rel, tag in (("bigtools/src/bbi/bbiwrite.rs", "bbiwrite"), ("bigtools/src/bbi/bigwigwrite.rs", "bigwigwrite"),
+                     ("bigtools/src/bbi/bigbedwrite.rs", "bigbedwrite"), ("bigtools/src/utils/file/tempfilebuffer.rs", "tempfilebuffer")):
+        sites = []
+        src = re.sub(r"//[^\n]*", "", read(rel))
+        cut = src.find("#[cfg(test)]")
+        if cut >= 0:
+            src = src[:cut]
+        for mw in re.finditer(r"\.write\s*\(", src):
+            depth, j, top_comma = 1, mw.end(), False
+            while depth and j < len(src):
+                c = src[j]
+                depth += {"(": 1, "[": 1, "{": 1, ")": -1, "]": -1, "}": -1}.get(c, 0)
+                if c == "," and depth == 1:
+                    top_comma = True
+                j += 1
+            fns = re.findall(r"\bfn\s+([A-Za-z_0-9]+)", src[:mw.start()])
+            encl = fns[-1] if fns else "?"
+            if top_comma or encl == "write":
+                continue                      # `out.write(vals, runtime)` is the writers' own API; `fn write` forwards the count
+            sites.append(encl)
+        out.append(f"/-- functions of {os.path.basename(rel)} that call a bare `write` (one buffer argument, outside an `impl Write`'s own `fn write`) -/\n"
+                   f"def wr_bare_write_{tag} : List String :=\n  [" + ", ".join('"' + x + '"' for x in sites) + "]")
     return ("import BigtoolsModel.FloatRound\n"
             "/-! GENERATED by tools/extract_consts.py (tools/rs2lean.py) from /repo's working tree — do not edit.\n"
             "    The arithmetic and branch conditions of the zoom tilers, the coverage sweeps, the section cut and the\n"
